@@ -72,7 +72,7 @@ func scenario(c cfg) vrt.Scenario {
 				r.Restart()
 			case "stop":
 				r.Stop()
-				vrt.Log(fmt.Sprintf("stopret %d", vrt.Clock()))
+				vrt.Log(fmt.Sprintf("stopret %d %d", vrt.Clock(), vrt.LiveOthers()))
 			case "cancel":
 				cancel()
 				vrt.Log(fmt.Sprintf("cancel %d", vrt.Clock()))
@@ -214,6 +214,9 @@ func oracle(c cfg, o *vrt.Outcome) {
 			stopClock = a
 			if open > 0 {
 				o.Fail("C18/executing-at-stop", "stopret", "Stop returned while the function is still executing")
+			}
+			if b > 0 {
+				o.Fail("C18/goroutine-left", "at-stop-return", fmt.Sprintf("Stop returned while %d goroutine(s) of the runner still existed", b))
 			}
 		case "cancel":
 			cancelled = true
